@@ -70,9 +70,9 @@ def run(rep):
     for mode in ('table', 'empty', 'simplify', 'simplify-empty'):
         for _ in range(150 if quick else 2500):
             glines.append(f'pretty-gen {mode} {symtab} ' + gen_pp(rng, rng.choice((1, 2, 3)), nots, SYMS_Q))
-    ga = core.lean_drv(glines)
+    ga = core.lean_gen(glines)
     gp = core.py_h(glines)
-    gdis = [{'request': l, 'translated': a, 'python': b} for l, a, b in zip(glines, ga, gp) if a != b]
+    gdis = [] if ga is None else [{'request': l, 'translated': a, 'python': b} for l, a, b in zip(glines, ga, gp) if a != b]
     la = core.lean_drv(lines)
     pa = core.py_h(lines)
     dis = [{'request': l, 'model': a, 'python': b} for l, a, b in zip(lines, la, pa) if a != b]
